@@ -32,6 +32,8 @@ class C02Monitor(Monitor):
         self.reported = {}
 
     def on_op_end(self, w, a, op, outcome):
+        if outcome.get("self_read"):
+            return
         if op["op"] == "create":
             if a.construct_error:
                 w.flag(self.prop, "construct", "Solver(...) raised %s" % a.construct_error, "Solver.__init__")
@@ -66,6 +68,8 @@ class C03Monitor(Monitor):
 
     def on_op_end(self, w, a, op, outcome):
         kind = op["op"]
+        if outcome.get("self_read"):
+            return          # a read from inside the host's own call-out: the accounting clauses apply at op boundaries
         if kind == "create":
             if a.construct_error:
                 w.flag(self.prop, "construct", "Solver(...) raised %s" % a.construct_error, "Solver.__init__")
